@@ -1,0 +1,53 @@
+//go:build verif
+
+/*
+ * Verification export: header.DecodeFrom over a reader that delivers its bytes in chunks
+ * (short reads), as a bufio.Reader does at a buffer boundary. Add-only; compiled only with
+ * `-tags verif`.
+ */
+
+package badger
+
+import "io"
+
+type verifChunkReader struct {
+	data  []byte
+	chunk int
+}
+
+func (r *verifChunkReader) Read(p []byte) (int, error) {
+	if len(r.data) == 0 {
+		return 0, io.EOF
+	}
+	n := len(p)
+	if n > r.chunk {
+		n = r.chunk
+	}
+	if n > len(r.data) {
+		n = len(r.data)
+	}
+	copy(p, r.data[:n])
+	r.data = r.data[n:]
+	return n, nil
+}
+
+// VerifHeaderDecodeFrom runs header.DecodeFrom on a hashReader over buf, delivered at most
+// `chunk` bytes per Read call. class: 0 ok, 1 io.EOF, 2 io.ErrUnexpectedEOF, 3 other error.
+func VerifHeaderDecodeFrom(buf []byte, chunk int) (klen, vlen uint32, expiresAt uint64, meta, userMeta byte, n int, class int) {
+	if chunk < 1 {
+		chunk = 1
+	}
+	var h header
+	hr := newHashReader(&verifChunkReader{data: append([]byte{}, buf...), chunk: chunk})
+	n, err := h.DecodeFrom(hr)
+	switch err {
+	case nil:
+	case io.EOF:
+		class = 1
+	case io.ErrUnexpectedEOF:
+		class = 2
+	default:
+		class = 3
+	}
+	return h.klen, h.vlen, h.expiresAt, h.meta, h.userMeta, n, class
+}
